@@ -214,7 +214,7 @@ def cutoff_correspondence(rep: Report, rng, n: int, big: int, batch=None) -> Non
                 acc += x
             if acc > eps * eps:
                 rep.fail("discarded prefix weight exceeds max_error^2", {"kind": "cutoff", "eps": eps, "d": d[:2000]})
-            if len(d) <= 32 and len(qlines) < max(250, n // 20) and all(abs(x) < 1e300 for x in d) and 1e-150 < eps < 1e150:
+            if len(d) <= 32 and len(qlines) < max(150, n // 20) and all(abs(x) < 1e300 for x in d) and 1e-150 < eps < 1e150:
                 qlines.append(f"cutoff.indexq {q2s(Fraction(eps))} {lst(q2s(Fraction(x)) for x in d)}")
                 qouts.append((exact_cutoff(d, eps), io, kind))
     def judge(mo):
@@ -726,7 +726,7 @@ def history_correspondence(rep: Report, rng, n: int, tier: str, batch=None) -> N
     sweep_lines, sweep_meta = [], []
     import time
     for _ in range(n):
-        if tier == "quick" and time.time() - rep.t0 > 60 and len(cases) >= 40:
+        if tier == "quick" and time.time() - rep.t0 > 50 and len(cases) >= 40:
             # soft wall-clock budget of the quick tier (the machine may be shared): stop generating,
             # judge what was run; recorded so that the evidence shows the reduced coverage
             rep.extra["histories_cut_short_by_budget"] = n - len(cases)
@@ -898,7 +898,7 @@ def _dummy_obs():
 def check(rep: Report, tier: str, seed: int) -> None:
     rep.rule = ("(a) lists for _determine_cutoff_index: prefix sums exactly on eps^2 (dyadic lattices), tiny +- eigenvalues "
                 "from rank-deficient Gram matrices, all-below-threshold, empty/one element, inf/nan, eps<=0/nan, eps^2 "
-                "under/overflow, lists up to 8e3 (quick) / 1e5 (thorough) elements — bit-exact index; split_matrix on matrices "
+                "under/overflow, lists up to 6e3 (quick) / 1e5 (thorough) elements — bit-exact index; split_matrix on matrices "
                 "with designed spectra, max_rank in {-1,0,1..1024}, both orth_center_right, preserve_norm. (b) histories: 2-10 "
                 "sites, qubits/qutrits, bond<=32, precision 1e-12..1e-2, max_bond_dim 1..64, init in {fresh None, MPS.make, "
                 "arbitrary flagged state incl. false claims}, ops orthogonalize/truncate/+/scalar*/apply/apply_to/expect_batch/"
@@ -925,7 +925,7 @@ def check(rep: Report, tier: str, seed: int) -> None:
     def lap(name):
         t.append(time.time())
         rep.extra["stage_s"][name] = round(t[-1] - t[-2], 1)
-    cutoff_correspondence(rep, rng, 600 if quick else 6000, 8000 if quick else 100000, batch)
+    cutoff_correspondence(rep, rng, 450 if quick else 6000, 6000 if quick else 100000, batch)
     lap("cutoff")
     split_correspondence(rep, rng, 120 if quick else 1500, batch)
     lap("split")
